@@ -72,7 +72,7 @@ def main():
     cov["transitions"] += r.states
     n, d = (60, 80) if tier == "quick" else (500, 300)
     MOPS = ["push_back", "emplace_back", "pop_back", "erase", "eraseRange", "eraseFast", "reserve", "shrink_to_fit", "clear",
-            "swap", "moveAssign", "setElt"]
+            "swap", "moveAssign", "setElt", "handle"]
     AOPS = MOPS + ["insert", "insertN", "insertRange", "resize", "resizeV", "assignN", "assignRange", "copyAssign", "copyConstruct",
                    "viewFill", "viewAssign"]
 
@@ -123,6 +123,8 @@ def main():
                 ln[x] = M
             elif op == "moveAssign":
                 ln[x] = M; ln[o] = 0
+            elif op == "handle":
+                a["i"] = rnd.randrange(L + 1); a["n"] = rnd.randrange(0, L - a["i"] + 1); a["j"] = rnd.randrange(2); a["k"] = rnd.randrange(5)
             elif op == "viewFill":
                 a["i"] = rnd.randrange(L + 1); a["n"] = rnd.randrange(0, L - a["i"] + 1)
             elif op == "viewAssign":
